@@ -180,6 +180,54 @@ func runC11(c *core.Ctx) {
 	})
 
 	// byte strings fed to the mapping parser: accepted without error => re-serialises identically
+	// A mapping parsed from the caller's buffer, and a second mapping DERIVED from it (its parsed
+	// keys reused with other values, converted and serialised): neither the source mapping, nor the
+	// bytes of the caller's buffer — the mapping's own and those that follow it — may change.
+	// (A serialiser that appends behind a parsed key writes into the buffer the key was cut from.)
+	c.Job("derived-mapping", c.N(1500, 30000), func(i int, r *core.Rand) {
+		m := gen.Mapping(r, 12)
+		if len(m.Pairs) == 0 {
+			return
+		}
+		enc := m.Encode()
+		whole := append(append([]byte{}, enc...), r.Bytes(40+r.Pick(60))...)
+		before := append([]byte{}, whole...)
+		c.Eval(1)
+		var pm data.Mapping
+		var errs []error
+		if p, _, _ := c.Call("data.ReadMapping", whole, func() { pm, _, errs = data.ReadMapping(whole) }); p || !lib.MappingAccepted(errs) {
+			return
+		}
+		src := append([]byte{}, pm.Data()...)
+		sh := gen.Shape{"pairs": len(m.Pairs), "class": "derived-mapping"}
+		c.Call("derive: ValuesToMapping(parsed keys, new values).Data()", whole, func() {
+			var nv data.MappingValues
+			for _, pair := range pm.Values() {
+				v, err := data.NewI2PString(string(r.Bytes(r.Pick(20))))
+				if err != nil {
+					continue
+				}
+				nv = append(nv, [2]data.I2PString{pair[0], v})
+			}
+			if dm, err := data.ValuesToMapping(nv); err == nil && dm != nil {
+				dm.Data()
+				dm.ToGoMap()
+			}
+			// (the parsed mapping's own slice is NOT handed to ValuesToMapping: the converter is
+			// documented to sort its argument, which is then the caller's doing)
+		})
+		c.Nontrivial([]byte("derived"), enc)
+		if !bytes.Equal(whole, before) {
+			c.Violate("data.ValuesToMapping", "callers-buffer-written-by-a-derived-mapping", sh, before, "after a mapping derived from the parsed one was serialised, the caller's input buffer differs at offset "+fmt.Sprint(firstDiff(before, whole)))
+			return
+		}
+		if after := pm.Data(); !bytes.Equal(after, src) {
+			c.Violate("data.ValuesToMapping", "source-mapping-changed-by-a-derived-mapping", sh, before, describeDiff(src, after))
+			return
+		}
+		c.Bucket("derived-mapping-left-source-intact")
+	})
+
 	c.Job("parser", c.N(20000, 400000), func(i int, r *core.Rand) {
 		var in []byte
 		class := ""
